@@ -113,3 +113,10 @@ Print Assumptions to_int_roundtrip_partial.
 Theorem to_int_roundtrip_refuted : exists z, in64 z /\ mod_to_int (print_dec z) <> Some z.
 Proof. exact to_int_roundtrip_refuted_lemma. Qed.
 Print Assumptions to_int_roundtrip_refuted.
+
+(* string.to_int(s, 10) accepts exactly: C white space, an optional sign, one or more decimal digits up to the
+   first NUL and nothing else, with the value inside int64 and different from the undefined pattern *)
+Theorem to_int_base10_exact : forall s v,
+  mod_to_int_base s 10 = Some v <-> (decimal_numeral (cstr s) v /\ in64 v /\ v <> YR_UNDEFINED).
+Proof. exact to_int_base10_exact_lemma. Qed.
+Print Assumptions to_int_base10_exact.
